@@ -32,6 +32,8 @@ func (w *Worker) unop(instr *ssa.UnOp, x Value) Value {
 			return w.TF.BVNeg(x)
 		case FloatV:
 			return -x
+		case SymFloat:
+			return SymFloat{w.TF.BVXor(x.B, w.TF.Const(64, 1<<63))}
 		}
 	case token.XOR:
 		return w.TF.BVNot(x.(*term.Term))
@@ -78,6 +80,9 @@ func (w *Worker) binop(op token.Token, xt, yt types.Type, x, y Value) Value {
 		if ya, ok := y.(*term.Term); ok && (isIntT(xa) || isIntT(ya)) {
 			return w.intBinop(op, xt, yt, xa, ya)
 		}
+	}
+	if r, ok := w.floatBinop(op, x, y); ok {
+		return r
 	}
 	switch op {
 	case token.EQL:
@@ -355,7 +360,11 @@ func (w *Worker) conv(dst, src types.Type, x Value) Value {
 		}
 		if isFloat(du) {
 			if !xv.IsConst() {
-				return Poison{"int->float of symbolic value"}
+				sw, ssigned, _ := intInfo(su)
+				if du.(*types.Basic).Kind() != types.Float64 || (sw == 64 && !ssigned) || sw <= 0 {
+					return Poison{"int->float of symbolic value (only signed or <64-bit integers to float64 are modelled)"}
+				}
+				return SymFloat{tf.FFromS(tf.Resize(xv, 64, ssigned))}
 			}
 			_, ssigned, _ := intInfo(su)
 			if ssigned {
@@ -376,6 +385,14 @@ func (w *Worker) conv(dst, src types.Type, x Value) Value {
 			}
 			return Poison{"uintptr->unsafe.Pointer"}
 		}
+	case SymFloat:
+		if dw, dsigned, ok := intInfo(du); ok && dw == 64 && dsigned {
+			return tf.FToS(xv.B)
+		}
+		if isFloat(du) && du.(*types.Basic).Kind() == types.Float64 {
+			return xv
+		}
+		return Poison{"conversion of a symbolic float64 to anything but int64"}
 	case FloatV:
 		if dw, dsigned, ok := intInfo(du); ok && dw > 0 {
 			if dsigned {
